@@ -167,6 +167,9 @@ func GenCliReq(r *RNG, k int, o CliOpts) (CliReq, Lane) {
 		}
 	}
 	l.Resp = resp
+	if o.Variety {
+		junkFlags(r, l.Ops)
+	}
 	return q, l
 }
 
